@@ -360,6 +360,33 @@ func (n *normalizer) call(x *ast.CallExpr) {
 			return
 		}
 	}
+	// slices.ContainsFunc(s, func(v T) bool { return A == v }) is slices.Contains(s, A) (the form forced on the
+	// interface{} twin: interface{} does not satisfy comparable under the module's language version)
+	if sel, ok := x.Fun.(*ast.SelectorExpr); ok && sel.Sel.Name == "ContainsFunc" && len(x.Args) == 2 {
+		if pk, isPk := sel.X.(*ast.Ident); isPk && pk.Name == "slices" {
+			if lit, isLit := x.Args[1].(*ast.FuncLit); isLit && lit.Type.Params.NumFields() == 1 && len(lit.Type.Params.List[0].Names) == 1 && len(lit.Body.List) == 1 {
+				if ret, isRet := lit.Body.List[0].(*ast.ReturnStmt); isRet && len(ret.Results) == 1 {
+					if be, isBE := ret.Results[0].(*ast.BinaryExpr); isBE && be.Op == token.EQL {
+						prm := n.info.ObjectOf(lit.Type.Params.List[0].Names[0])
+						var other ast.Expr
+						if id, isID := be.X.(*ast.Ident); isID && n.info.ObjectOf(id) == prm {
+							other = be.Y
+						} else if id, isID := be.Y.(*ast.Ident); isID && n.info.ObjectOf(id) == prm {
+							other = be.X
+						}
+						if other != nil {
+							n.emit("slices", ".Contains", "(")
+							n.expr(x.Args[0])
+							n.emit(",")
+							n.expr(other)
+							n.emit(")")
+							return
+						}
+					}
+				}
+			}
+		}
+	}
 	if n.exprHelper(x) {
 		return
 	}
@@ -926,6 +953,24 @@ func wholeOperand(info *types.Info, s ast.Stmt, obj types.Object) bool {
 		if _, rhs := defOf(s); rhs != nil {
 			return is(rhs)
 		}
+	case *ast.IfStmt:
+		// `found := E; if found {` / `if !found {`: the condition is the temporary itself (possibly negated)
+		if x.Init != nil {
+			return false
+		}
+		cond := x.Cond
+		for {
+			if pe, ok := cond.(*ast.ParenExpr); ok {
+				cond = pe.X
+				continue
+			}
+			if ue, ok := cond.(*ast.UnaryExpr); ok && ue.Op == token.NOT {
+				cond = ue.X
+				continue
+			}
+			break
+		}
+		return is(cond)
 	}
 	return false
 }
